@@ -123,6 +123,7 @@ func kConc(args []string) (string, string) {
 	}
 	var releases []release
 	rmdirAt := []int{-1, 0, 0} // caller, op, ms: remove the output directory that long after the call was issued
+	badcl := map[int]bool{}
 	if len(args) > 2 && args[2] != "-" {
 		for _, d := range strings.Split(args[2], ";") {
 			f := strings.Split(d, ":")
@@ -143,6 +144,11 @@ func kConc(args []string) (string, string) {
 			case "fail":
 				t, _ := strconv.Atoi(f[1])
 				cm.fail[t] = true
+			case "badcl":
+				// a record whose Content-Length cannot be parsed (the caller changed the header after Build): refused by the fit
+				// test with an error in ITS response; the other records of the batch are written as usual
+				t, _ := strconv.Atoi(f[1])
+				badcl[t] = true
 			case "rmdir":
 				co := strings.Split(f[2], ".")
 				c, _ := strconv.Atoi(co[0])
@@ -246,6 +252,9 @@ func kConc(args []string) (string, string) {
 					for _, t := range c.toks {
 						wr := &wrec{tok: t, kind: "r", size: 40 + t%300, decl: "t"}
 						if buildWrec(wr) == nil {
+							if badcl[t] {
+								wr.rec.WarcHeader().Set("Content-Length", "5 ")
+							}
 							recs = append(recs, wr.rec)
 						}
 					}
@@ -399,8 +408,8 @@ func kConc(args []string) (string, string) {
 			for i, r := range c.resp {
 				t := c.toks[i]
 				if r.Err != nil {
-					if cm.fail[t] {
-						continue // the marshaler failed: the response says so
+					if cm.fail[t] || badcl[t] {
+						continue // the marshaler failed / the fit test refused the record: the response says so
 					}
 					setViol("c09-write-error", fmt.Sprintf("tok=%d %v", t, r.Err))
 					continue
@@ -408,6 +417,9 @@ func kConc(args []string) (string, string) {
 				if cm.fail[t] {
 					viol = "VIOL c10-error-swallowed " + fmt.Sprintf("record %d failed to marshal but its response carries no error", t)
 					continue
+				}
+				if badcl[t] {
+					continue // no file was open when its turn came: no fit test, the record was written as it is
 				}
 				ms := byTok[t]
 				if len(ms) != 1 {
@@ -499,7 +511,14 @@ func genConc(r *rng, n int, tier string, emit func(string, ...string)) {
 	for i := 0; i < n; i++ {
 		k := r.rangeInt(1, 3)
 		cfg := fmt.Sprintf("k=%d;comp=%s;max=%d;info=%s", k, tf(r.chance(1, 2)), pick(r, []int{0, 600, 1500}), tf(r.chance(1, 2)))
-		switch r.intn(11) {
+		switch r.intn(12) {
+		case 11: // a batch with a record in the middle that the fit test refuses (unparsable Content-Length): its response carries
+			// the error, every other record of the call is written and reported
+			kk := 1
+			cfg = fmt.Sprintf("k=%d;comp=%s;max=%d;info=%s", kk, tf(r.chance(1, 2)), pick(r, []int{100000, 1500}), tf(r.chance(1, 2)))
+			a, b, c, d, e := next(), next(), next(), next(), next()
+			emit("conc", cfg, fmt.Sprintf("W%d,W%d+%d+%d+%d,C", a, b, c, d, e), fmt.Sprintf("badcl:%d", pick(r, []int{c, d})))
+			stat("conc-scenario", "batch-with-refused-record")
 		case 10: // a name generator that hands out the same name every time: the second file cannot be created; every call returns
 			kk := r.rangeInt(2, 3)
 			cfg = fmt.Sprintf("k=%d;comp=%s;max=%d;info=%s;fixedname=t", kk, tf(r.chance(1, 2)), pick(r, []int{0, 600}), tf(r.chance(1, 2)))
